@@ -220,7 +220,9 @@ fn single_amount(v: &V) -> Result<Option<(String, Q)>, R> {
                 return Err(R::Reject("multi-commodity-where-single-amount-required"));
             }
             if m.len() >= 2 {
-                return Err(R::DontCare("multi-commodity-with-zero-extras"));
+                // two commodities were summed and are "kept apart", even though at most one of them is non-zero:
+                // still a multi-commodity sum by the letter of the statement (and okane rejects all of these)
+                return Err(R::Reject("multi-commodity-with-zero-components-where-single-amount-required"));
             }
             if m.is_empty() {
                 return Err(R::DontCare("empty-amount"));
